@@ -29,7 +29,21 @@ Shapes == <<
   [oak |-> 3, fix |-> 8,  asic |-> 5, allow |-> 7,  final |-> 10, oakTime |-> 2],
   [oak |-> 2, fix |-> 3,  asic |-> 4, allow |-> 6,  final |-> 12, oakTime |-> 10000],
   [oak |-> 6, fix |-> 6,  asic |-> 8, allow |-> 10, final |-> 12, oakTime |-> 600],
-  [oak |-> 2, fix |-> 12, asic |-> 3, allow |-> 11, final |-> 12, oakTime |-> 3] >>
+  [oak |-> 2, fix |-> 12, asic |-> 3, allow |-> 11, final |-> 12, oakTime |-> 3],
+  \* forks active from genesis (height 0) or from the first block (height 1): each fork in turn, and all together
+  [oak |-> 0, fix |-> 2,  asic |-> 3, allow |-> 5,  final |-> 8,  oakTime |-> 10000],   \* 7  Oak from genesis
+  [oak |-> 2, fix |-> 0,  asic |-> 4, allow |-> 6,  final |-> 9,  oakTime |-> 10000],   \* 8  Oak fix from genesis
+  [oak |-> 2, fix |-> 3,  asic |-> 0, allow |-> 5,  final |-> 8,  oakTime |-> 10000],   \* 9  ASIC from genesis
+  [oak |-> 2, fix |-> 3,  asic |-> 4, allow |-> 0,  final |-> 6,  oakTime |-> 10000],   \* 10 v2 allowed from genesis
+  [oak |-> 2, fix |-> 3,  asic |-> 4, allow |-> 0,  final |-> 0,  oakTime |-> 10000],   \* 11 final cut from genesis
+  [oak |-> 0, fix |-> 0,  asic |-> 0, allow |-> 0,  final |-> 0,  oakTime |-> 10000],   \* 12 everything from genesis
+  [oak |-> 1, fix |-> 3,  asic |-> 4, allow |-> 6,  final |-> 9,  oakTime |-> 10000],   \* 13 Oak at 1
+  [oak |-> 0, fix |-> 1,  asic |-> 1, allow |-> 3,  final |-> 6,  oakTime |-> 600],     \* 14 fix and ASIC reset at 1
+  [oak |-> 0, fix |-> 0,  asic |-> 0, allow |-> 1,  final |-> 4,  oakTime |-> 10000],   \* 15 v2 allowed at 1
+  [oak |-> 0, fix |-> 0,  asic |-> 0, allow |-> 0,  final |-> 1,  oakTime |-> 10000],   \* 16 final cut at 1
+  [oak |-> 1, fix |-> 1,  asic |-> 1, allow |-> 1,  final |-> 1,  oakTime |-> 10000],   \* 17 everything at 1
+  [oak |-> 0, fix |-> 0,  asic |-> 0, allow |-> 4,  final |-> 7,  oakTime |-> 10000] >> \* 18 legacy forks from genesis, v2 later
+FullShapes == 1..6   \* the shapes whose chains pass through every era
 Choices == 0..7
 FarFuture == 3600000
 
@@ -80,8 +94,9 @@ WellFormed == WellFormedNet(Net)
 TimeRule == \A i \in DOMAIN hist : 2 * hist[i][2] >= hist[i][3] /\ hist[i][2] < 1073741824
 EraOrder == \A i \in DOMAIN hist : i > 1 => hist[i][4] >= hist[i - 1][4]
 \* a complete chain has been through every era and through the scheduled reset
-Crossing == h = ChainLen => /\ {hist[i][4] : i \in DOMAIN hist} = 1..4
-                            /\ Net.asic <= ChainLen /\ Net.final < ChainLen
+Crossing == h = ChainLen => /\ Net.asic <= ChainLen /\ Net.final < ChainLen
+                            /\ (shape \in FullShapes => {hist[i][4] : i \in DOMAIN hist} = 1..4)
+                            /\ (Net.final <= 1 => {hist[i][4] : i \in DOMAIN hist} = {4})
 \* emission
 Emit == h = ChainLen =>
   PrintT("@@SKEL " \o ToJson([shape |-> shape, oak |-> Shapes[shape].oak, fix |-> Shapes[shape].fix,
